@@ -103,6 +103,9 @@ func genC16(seed uint64, run int, tier string) *Plan {
 					op.Sub = append(op.Sub, driverOp())
 				}
 				op.Ctx, op.Ms = ctxMode()
+				if r.IntN(5) < 2 {
+					op.Sess = privSess
+				}
 			case k < 16:
 				op = Op{K: "s.with", End: pick(r, "commit", "commit", "error", "panic"), Tag: nextTag()}
 				for n := r.IntN(3); n >= 0; n-- {
@@ -112,6 +115,9 @@ func genC16(seed uint64, run int, tier string) *Plan {
 					op.Sub = append(op.Sub, Op{K: "sleep", Ms: int64(1 + r.IntN(2000))})
 				}
 				op.Ctx, op.Ms = ctxMode()
+				if r.IntN(5) < 2 {
+					op.Sess = privSess
+				}
 			case k < 17:
 				op = Op{K: "watch", Scope: pick(r, "client", "db", "coll"), DB: "db", C: "c"}
 			case k < 18:
@@ -144,6 +150,8 @@ func genC16(seed uint64, run int, tier string) *Plan {
 		p.Faults = append(p.Faults, Fault{Kind: "store-latency", At: r.IntN(6), Ms: int64(1 + r.IntN(5000))})
 	case 3:
 		p.Faults = append(p.Faults, Fault{Kind: "delay", At: r.IntN(60), Task: r.IntN(ntasks) + 1, N: 5 + r.IntN(60)})
+	case 4:
+		p.Faults = append(p.Faults, Fault{Kind: "store-slow-fail", At: r.IntN(6), Ms: int64(1 + r.IntN(3000))})
 	}
 	return p
 }
@@ -332,6 +340,20 @@ func c16Check(e *Env, a *actor, c *CallRec) {
 	}
 	closed := e.closedByPlan()
 	class := classifyErr(c.Err)
+	if class == "closed" && e.closed && c.InvAt < e.closedAt && e.plan.Cfg.TimePassPct == 0 {
+		// the call was in flight when Engine.Close returned: shutdown must have woken it, it may not sit out a timer
+		simple := false
+		switch c.Op.K {
+		case "insertOne", "updateOne", "deleteOne", "find", "e.read":
+			simple = true
+		case "e.write":
+			simple = c.Op.N == 0
+		}
+		if d := c.RetAt - e.closedAt; simple && d >= time.Second {
+			e.violate(violation("C16", "close-did-not-wake", c.Op.K, fmt.Sprintf("%s: %s was in flight when Engine.Close returned and came back with the closed error only %v of simulated time later", a.t.Name, opStr(c.Op), d)))
+			return
+		}
+	}
 	if class == "token acquisition timeout" && (e.plan.Cfg.SharedSess || e.plan.Cfg.TimePassPct > 0) {
 		e.probe("legit-token-timeout")
 		return
